@@ -109,7 +109,7 @@ def builders(ctx, pfx, A, ev, loops3, ci, oi, chain_first, value_of, nd, sp):
             wrap(dbs, lout.init[[x for x in lout.lx if keyrepr(x) == keyrepr(dk[0])][0]])
         first, second = (cb, ob) if chain_first else (ob, cb)
         alts.append(T.app('concat', T.app('array', T.app(FINISH, first), T.app(FINISH, second)), mk_comp(T.app('len', db), k2, T.app(FINISH, index_term(db, k2)))))
-    ctx.eq(pfx + '.labels_values', A, 'order', arrays, alts[0], alts=alts[1:], sp=tn[0].sp,
+    ctx.eq(pfx + '.labels_values', A, 'order', strip_eff(arrays), alts[0], alts=alts[1:], sp=tn[0].sp,
            why='columns are assembled in the order of the schema: [%s, %s, dim_0, …]' % (('chain', 'observation') if chain_first else ('observation', 'chain')))
 
 
